@@ -272,6 +272,34 @@ fn main() {
             }
             let _ = std::fs::remove_dir_all(&scratch);
         }
+        Some("verdicts") => {
+            // input: a sequence of (PTR "text"); output: one word per input (ok | err | panic | parse)
+            let input = std::fs::read_to_string(&args[2]).expect("read");
+            let items = sexp::parse(&input).expect("parse");
+            let mut out = std::io::BufWriter::new(std::fs::File::create(&args[3]).expect("create output"));
+            let path = pyxis::grammar::ItemPath::from("m");
+            for it in &items {
+                let l = it.list().unwrap();
+                let ptr: usize = l[0].atom().unwrap().parse().unwrap();
+                let text = String::from_utf8_lossy(l[1].string().unwrap()).into_owned();
+                let r = catch_unwind(AssertUnwindSafe(|| -> Result<anyhow::Result<()>, ()> {
+                    let m = pyxis::parser::parse_str(&text).map_err(|_| ())?;
+                    Ok((|| {
+                        let mut st = pyxis::semantic::SemanticState::new(ptr);
+                        st.add_module(&m, &path)?;
+                        st.build()?;
+                        Ok(())
+                    })())
+                }));
+                let w = match r {
+                    Ok(Ok(Ok(()))) => "ok",
+                    Ok(Ok(Err(_))) => "err",
+                    Ok(Err(())) => "parse",
+                    Err(_) => "panic",
+                };
+                writeln!(out, "{}", w).unwrap();
+            }
+        }
         Some("snippets") => {
             // input: a sequence of quoted strings; output: one rsdump line per string
             let input = std::fs::read_to_string(&args[2]).expect("read snippets");
